@@ -326,6 +326,14 @@ h("kd4_build_bl_tree_announces_every_used_length", D + "/kd4_trees.rs", "deflate
   functions=["deflate::build_bl_tree (HCLEN: index of the last code length to send, opt_len update)"],
   bounds="any bit-length tree (19 lengths <= 7, also all-zero tails) in which at least one of the length symbols 1..=15 has a code (the end-of-block symbol guarantees it)",
   assumptions=["scan_tree and build_tree stubbed to no-ops: the bit-length tree is given symbolically (they are decided by kd5_send_tree_* and kd4_build_tree_bl_*)", "order of the code-length alphabet transcribed from RFC 1951 3.2.7"])
+h("kd3_compress_block_static_two_symbols", D + "/kd1_bitwriter.rs", "deflate::verif_kani::kd1_bitwriter", ["C05", "C01"], kernel="KD3", expect_s=120, timeout=1500, weight=2, mem_gb=16,
+  functions=["State::compress_block_static_trees", "SymBuf::{push_lit,push_dist,iter}", "emit_lit", "emit_dist", "emit_end_block"],
+  bounds="symbol buffer holding one literal and one match in either order (any byte, any length 3..=258, any distance 1..=32768), 0..=7 bits already in the register",
+  assumptions=["reference: RFC 1951 fixed codes, base/extra tables transcribed from the RFC"])
+h("kd3_compress_block_general_two_symbols", D + "/kd1_bitwriter.rs", "deflate::verif_kani::kd1_bitwriter", ["C05", "C01"], kernel="KD3", expect_s=120, timeout=1500, weight=2, mem_gb=16,
+  functions=["BitWriter::compress_block_help (given the fixed code as its trees)", "SymBuf::{push_lit,push_dist,iter}", "emit_lit", "emit_dist", "emit_end_block"],
+  bounds="symbol buffer holding one literal and one match in either order (any byte, any length 3..=258, any distance 1..=32768), 0..=7 bits already in the register",
+  assumptions=["reference: RFC 1951 fixed codes, base/extra tables transcribed from the RFC"])
 h("kd9_slide_hash_chain", "zlib-rs/src/deflate/slide_hash/verif_kani.rs", "deflate::slide_hash::verif_kani", ["C01"], kernel="KD9", expect_s=60, timeout=900,
   functions=["slide_hash::slide_hash_chain", "generic_slide_hash_chain::<32>"], bounds="64 symbolic entries, any wsize")
 
@@ -702,7 +710,7 @@ QUICK = {
             "ki5e_length_gzip", "ki5b_hcrc"],
     "C04": ["ki5d_dist_long_code_dispatch", "ki1_bitreader_split", "ki5c_copyblock_resume", "ki5c_stored_trees", "ki5d_match_guard_dispatch", "ki5c_codelens_17_suspend", "ki5c_lenlens_order", "ki5b_extra", "ki5d_dist_step_friends",
             "ki7_inflate_copyblock", "ki3_window_extend_ring", "ki5c_typedo_b2_i0"],
-    "C05": ["kd4_build_bl_tree_announces_every_used_length", "kd6_stored_pending_block_fits_len16", "kd4_gen_codes_n5", "kd4_build_tree_bl_k2", "kd4_build_tree_bl_k3", "kd4_build_tree_bl_single", "kd5_send_tree_n4", "kd5_send_tree_z11_n13", "kd1_bitwriter_pack", "kd1_emitters_one_step", "kd1_bitwriter_full_register", "kd10_prime",
+    "C05": ["kd3_compress_block_general_two_symbols", "kd4_build_bl_tree_announces_every_used_length", "kd6_stored_pending_block_fits_len16", "kd4_gen_codes_n5", "kd4_build_tree_bl_k2", "kd4_build_tree_bl_k3", "kd4_build_tree_bl_single", "kd5_send_tree_n4", "kd5_send_tree_z11_n13", "kd1_bitwriter_pack", "kd1_emitters_one_step", "kd1_bitwriter_full_register", "kd10_prime",
             "kd2_static_encode_matches_rfc", "kd2_static_ltree_is_rfc_fixed_code", "kd7_zlib_wrapper", "kd8_quick_finish_n1",
             "kd10_set_dictionary_protocol"],
     "C06": ["kd10_prime_room0", "kd10_prime_room7", "kd10_prime_room8", "kd7_refused_call_without_space_is_harmless", "kd7_starved_flush_is_completed_by_the_next_call", "kd7_zlib_wrapper", "kd7_zlib_starved_finish", "kd10_prime", "kd10_params_tune", "kd10_set_header",
